@@ -697,8 +697,8 @@ var searchPrimitives = map[string]bool{
 
 func ruleOffsetBase(r *Run) {
 	p := r.P
+	sites := map[*ssa.Function]int{}
 	for _, fn := range p.ModuleFuncs() {
-		site := 0
 		eachInstr(fn, func(in ssa.Instruction) {
 			bo, ok := in.(*ssa.BinOp)
 			if !ok || bo.Op != token.ADD {
@@ -719,8 +719,9 @@ func ruleOffsetBase(r *Run) {
 				if !p.isCursorInto(cur, base) {
 					return false
 				}
-				site++
-				key := fmt.Sprintf("%s/cursor+=%s#%d", shortFunc(fn), shortName(calleeName(c)), site)
+				// keyed by the function that calls the primitive: the addition may live in a helper
+				sites[c.Parent()]++
+				key := fmt.Sprintf("%s/cursor+=%s#%d", shortFunc(c.Parent()), shortName(calleeName(c)), sites[c.Parent()])
 				if low != nil && p.sameValue(low, cur) {
 					r.ok(key, in.Pos(), "the primitive searched the suffix starting at the cursor; its result is relative to the cursor")
 				} else if low == nil {
@@ -730,8 +731,12 @@ func ruleOffsetBase(r *Run) {
 				}
 				return true
 			}
-			if !try(bo.X, bo.Y) {
-				try(bo.Y, bo.X)
+			// the operands as seen from each call site when the addition sits in a transparent helper
+			for _, bind := range p.bindings(fn) {
+				x, y := bind.subst(bo.X), bind.subst(bo.Y)
+				if !try(x, y) {
+					try(y, x)
+				}
 			}
 		})
 	}
